@@ -544,6 +544,8 @@ type Owns struct {
 	Src                  string
 }
 
+var reCalls = regexp.MustCompile(`\bcalls\((\w+)\)`)
+
 type Lemma struct {
 	Name    string
 	PkgPath string
@@ -559,13 +561,14 @@ type Specs struct {
 	SpecFuncs map[string]*SpecFunc // by pkgpath.name and bare name within package
 	Lemmas    map[string]*Lemma
 	Owns      map[string]*Owns // by pkgpath.Type.field
+	Tracked   map[string]bool  // callee names counted by the ghost counters calls(Name)
 	Files     []string
 }
 
 var labelRe = regexp.MustCompile(`^\[([A-Za-z0-9_]+)\]\s*`)
 
 func newSpecs() *Specs {
-	return &Specs{Contracts: map[string]*Contract{}, SpecFuncs: map[string]*SpecFunc{}, Lemmas: map[string]*Lemma{}, Owns: map[string]*Owns{}}
+	return &Specs{Contracts: map[string]*Contract{}, SpecFuncs: map[string]*SpecFunc{}, Lemmas: map[string]*Lemma{}, Owns: map[string]*Owns{}, Tracked: map[string]bool{}}
 }
 
 // loadSpecFile parses one contract file. pkgPath is the import path the file's contracts refer to
@@ -599,6 +602,9 @@ func (sp *Specs) loadSpecFile(path, pkgPath string) error {
 		trim := strings.TrimSpace(body)
 		if trim == "" {
 			continue
+		}
+		for _, m := range reCalls.FindAllStringSubmatch(trim, -1) {
+			sp.Tracked[m[1]] = true
 		}
 		first := strings.Fields(trim)[0]
 		switch first {
